@@ -90,7 +90,8 @@ def judge(out, case, spec, files, before, after, res, tags, what, n_ref):
     si, sp = pa.leftovers()
     # an info file whose REMOVAL was itself answered with an injected error cannot be cleaned up by
     # anybody: leaving it behind (with failure reported) is the best possible outcome
-    unremovable = {t[3][0] for t in res.trace if t[2] in ("unlink", "remove") and
+    # (the clean-up probes the file with lstat before unlinking it: an error there counts as well)
+    unremovable = {t[3][0] for t in res.trace if t[2] in ("unlink", "remove", "lstat", "stat", "access") and
                    str(t[4]).startswith("FAULT") and t[3]}
     si = [p for p in si if p not in unremovable]
     if si:
